@@ -64,6 +64,12 @@ let parse_gostruct s =
   | name :: fs -> { gs_name = bytes_of_hex name; gs_fields = List.map parse_gofield fs }
   | [] -> failwith "bad gostruct"
 
+let show_gofield g =
+  String.concat ":" [ hex_of_bytes g.g_name; (if g.g_isarr then "1" else "0"); string_of_n g.g_arrlen; hex_of_bytes g.g_tname;
+    (if g.g_kind_uint64 then "1" else "0"); (if g.g_kind_string then "1" else "0");
+    hex_of_bytes g.g_tag_enum; hex_of_bytes g.g_tag_len; hex_of_bytes g.g_tag_ext; hex_of_bytes g.g_tag_name ]
+let show_gostruct g = String.concat "|" (hex_of_bytes g.gs_name :: List.map show_gofield g.gs_fields)
+
 (* ---- dialect table ---- *)
 let dialects : (string, (n * codec) list) Hashtbl.t = Hashtbl.create 16
 let enum_tbl : (string, enum) Hashtbl.t = Hashtbl.create 300
@@ -268,6 +274,30 @@ let handle (fields : string list) : string =
       Printf.sprintf "wire=%s ev=%s"
         (String.concat "|" (List.map show_value wire))
         (String.concat " " (List.map (function EvReq (s, k) -> "S" ^ string_of_n s ^ "." ^ string_of_n k | EvFrame -> "F") evs))))
+  | ["genmsg"; name; id; fields] ->
+    let fs = if fields = "-" then [] else List.map (fun t -> match split ':' t with
+      | [ty; nm; en; ext] -> { xf_type = bytes_of_hex ty; xf_name = bytes_of_hex nm; xf_enum = bytes_of_hex en; xf_ext = b01 ext }
+      | _ -> failwith ("bad xfield " ^ t)) (split '|' fields) in
+    (match process_message { xm_name = bytes_of_hex name; xm_id = n_of_string id; xm_fields = fs } with
+     | Ok g ->
+       let crc = (match initialize g with Ok c -> string_of_n c.c_crc | Err _ -> "err" | Panic -> "panic") in
+       Printf.sprintf "ok %s %s %s" (show_gostruct g) id crc
+     | Err _ -> "err" | Panic -> "panic")
+  | ["genenum"; v] ->
+    (match parse_enum_value (bytes_of_hex v) with Some n -> string_of_n n | None -> "err")
+  | ["gendialect"; root; files] ->
+    let fl = List.map (fun t -> match String.split_on_char ';' t with
+      | [addr; incs; ver; names] ->
+        { xfl_addr = bytes_of_hex addr; xfl_includes = List.map bytes_of_hex (split ',' incs);
+          xfl_version = bytes_of_hex ver; xfl_msgs = List.map bytes_of_hex (split ',' names) }
+      | _ -> failwith ("bad xfile " ^ t)) (split ' ' files) in
+    (match dialect_of (nat_of_int 64) fl (bytes_of_hex root) with
+     | None -> "err"
+     | Some (v, names) ->
+       Printf.sprintf "%s ok %s" (string_of_z v)
+         (String.concat "," (List.map (fun n -> match def_to_go n with
+            | Ok g -> "Message" ^ String.concat "" (List.map (fun b -> String.make 1 (Char.chr (int_of_n b))) g)
+            | _ -> "?") names)))
   | ["tcalls"; ops] ->
     let os = List.map (fun t -> if t = "R" then IoRead else IoWrite) (split ' ' ops) in
     String.concat " " (List.map (function SetReadDeadline -> "SR" | SetWriteDeadline -> "SW" | DoRead -> "R" | DoWrite -> "W") (timed_calls os))
